@@ -3,6 +3,7 @@ package chk
 import (
 	"fmt"
 	"go/token"
+	"go/types"
 	"strings"
 
 	"golang.org/x/tools/go/ssa"
@@ -234,7 +235,29 @@ func checkC08(c *Ctx, r *Report) {
 		loops := naturalLoops(f)
 		flushed := false
 		narrowed := ""
-		for _, w := range callsIn(f, "iface.Write", false) {
+		writes := callsIn(f, "iface.Write", false)
+		// the write may be wrapped in an unexported helper that is handed (a slice of) the work buffer and writes it
+		for _, b := range f.Blocks {
+			for _, ins := range b.Instrs {
+				ci, ok := ins.(ssa.CallInstruction)
+				if !ok {
+					continue
+				}
+				h := ci.Common().StaticCallee()
+				if h == nil || h.Pkg != f.Pkg || (h.Object() != nil && h.Object().Exported()) {
+					continue
+				}
+				if len(callsIn(h, "iface.Write", false)) == 0 {
+					continue
+				}
+				for ai, a := range ci.Common().Args {
+					if _, isSl := a.Type().Underlying().(*types.Slice); isSl && sliceHas(backSlice(c, a, 0), "param", "workSpace") {
+						writes = append(writes, helperWrite{ci, ai})
+					}
+				}
+			}
+		}
+		for _, w := range writes {
 			inLoop := false
 			for _, l := range loops {
 				if l.blocks[w.Block()] {
@@ -244,7 +267,11 @@ func checkC08(c *Ctx, r *Report) {
 			if inLoop {
 				continue
 			}
-			sl := backSlice(c, w.Common().Args[0], 0)
+			bufArg := w.Common().Args[0]
+			if hw, ok := w.(helperWrite); ok {
+				bufArg = hw.Common().Args[hw.arg]
+			}
+			sl := backSlice(c, bufArg, 0)
 			if sliceHas(sl, "param", "workSpace") {
 				flushed = true
 				// the remainder is written whenever there is one: the only conditions on the write are tests against 0
@@ -302,4 +329,10 @@ func checkC08(c *Ctx, r *Report) {
 		r.Floor("O-FLUSH", 2)
 	}
 	_ = strings.TrimSpace
+}
+
+// helperWrite: a call of an unexported helper that writes the slice passed as argument arg.
+type helperWrite struct {
+	ssa.CallInstruction
+	arg int
 }
